@@ -31,6 +31,7 @@ def run_check(prop, root, tier="quick"):
     rep.ctx = ctx
     rep.engine_free = set(getattr(mod, "ENGINE_FREE", ()))
     rep.idiom_exempt = set(getattr(mod, "IDIOM_GUARD_EXEMPT", ()))
+    rep.needs_all_runs = set(getattr(mod, "NEEDS_ALL_RUNS", ()))
     mod.check(ctx, rep, tier)
     rep.engine_guard()
     rep.idiom_guard()
